@@ -1,7 +1,7 @@
 SPECIFICATION Spec
 CONSTANTS
   M = {1, 2}
-  MaxN = 3
+  MaxN = 2
   Delays = {0, 1}
   Actives = {0, 1, 2}
   Starts = {2}
